@@ -496,15 +496,28 @@ Proof.
     + apply ts_not_rs, H.
 Qed.
 
+Lemma run_api_Eff c a s : Eff (A_own (c_out c)) (B_out (c_out c)) s (fst (run_api c a s)).
+Proof.
+  unfold run_api.
+  destruct (negb (c_lib_ok c)); [apply Eff_refl|].
+  destruct (negb (exists_b s (c_proj c))); [apply Eff_refl|].
+  destruct (negb (a_ok a)); [apply Eff_refl|].
+  destruct (negb (a_cmds a)); [apply Eff_refl|].
+  pose proof (seq_Eff _ _ _ (writer_plan_ok (c_out c) a) s) as E.
+  destruct (seq (writer_plan (c_out c) a) s) as [s' ok]. exact E.
+Qed.
+
 Lemma exec_Eff r s : Eff (touch r) (B_out (out_of r)) s (fst (exec r s)).
 Proof.
-  unfold exec. destruct (r_entry r) as [|i|d] eqn:E.
+  unfold exec. destruct (r_entry r) as [|i|d|] eqn:E.
   - eapply Eff_weaken; [| |apply run_generate_Eff]; [|auto].
     intros q H. left. apply own_may_change, H.
   - eapply Eff_weaken; [| |apply run_init_Eff]; [|auto].
     intros q [H|H]; [left; apply own_may_change, H|right; unfold init_target; rewrite E; congruence].
   - eapply Eff_weaken; [| |apply run_build_Eff]; [|auto].
     intros q [H|H]; left; [apply own_may_change, H|apply cln_may_change, H].
+  - eapply Eff_weaken; [| |apply run_api_Eff]; [|auto].
+    intros q H. left. apply own_may_change, H.
 Qed.
 
 Lemma exec_frame r s q :
